@@ -83,8 +83,15 @@ func NondetSelect()                            { panic("intrinsic") }
 func OnSelect(f func())                        { panic("intrinsic") }
 func FilesRemoved() int                        { panic("intrinsic") }
 func FileRemoved(i int) string                 { panic("intrinsic") }
+func ServeRegistersBackground(fn any) int      { panic("intrinsic") }
+func ServeBackgroundCount() int                { panic("intrinsic") }
+func WarmBegin()                                { panic("intrinsic") }
+func WarmEnd()                                  { panic("intrinsic") }
 func Accepts(cond bool, label string)          { panic("intrinsic") }
 func TablesDropped() int                       { panic("intrinsic") }
+func GrpcRegisteredImpl(i int) any             { panic("intrinsic") }
+func HttpSentTimeout(i int) int64              { panic("intrinsic") }
+func SqlPool(setting string) int               { panic("intrinsic") }
 func SqlOpens() int                            { panic("intrinsic") }
 func SqlOpenDriver(i int) string               { panic("intrinsic") }
 func SqlOpenDSN(i int) string                  { panic("intrinsic") }
